@@ -166,7 +166,7 @@ func (r *Roles) resolveFilters(p *an.Prog) {
 		r.problem("filters.AddStandardFilters not found")
 		return
 	}
-	an.EachCall(fn, func(ci ssa.CallInstruction) {
+	eachCallInUnit(p, fn, func(ci ssa.CallInstruction) {
 		c := ci.Common()
 		name := ""
 		if c.IsInvoke() {
@@ -246,7 +246,7 @@ func (r *Roles) resolveTags(p *an.Prog) {
 		return
 	}
 	blocks := map[ssa.Value][]*Block{} // builder value -> block(s) registered by that call
-	an.EachCall(fn, func(ci ssa.CallInstruction) {
+	eachCallInUnit(p, fn, func(ci ssa.CallInstruction) {
 		c := ci.Common()
 		callee := c.StaticCallee()
 		if callee == nil {
@@ -488,4 +488,12 @@ func (r *Roles) Label(fn *ssa.Function) string {
 		}
 	}
 	return an.FuncName(fn)
+}
+
+// eachCallInUnit visits the calls of fn and of the helpers only it uses (a registration routine
+// split into several functions).
+func eachCallInUnit(p *an.Prog, fn *ssa.Function, f func(ssa.CallInstruction)) {
+	for _, u := range unitWithHelpers(p, fn) {
+		an.EachCall(u, f)
+	}
 }
